@@ -61,9 +61,27 @@ func (f *fakeList) ncalls() int {
 type fakeFilter struct {
 	mu      sync.Mutex
 	healthy map[string]bool
+	entered chan struct{} // armed: the next Run announces itself here and waits for release (a slow health check)
+	release chan struct{}
+}
+
+// arm makes the next Run park until the returned release channel is closed.
+func (f *fakeFilter) arm() (entered <-chan struct{}, release chan<- struct{}) {
+	f.mu.Lock()
+	defer f.mu.Unlock()
+	f.entered, f.release = make(chan struct{}), make(chan struct{})
+	return f.entered, f.release
 }
 
 func (f *fakeFilter) Run(addrs stringset.Set) stringset.Set {
+	f.mu.Lock()
+	entered, release := f.entered, f.release
+	f.entered, f.release = nil, nil
+	f.mu.Unlock()
+	if entered != nil {
+		close(entered)
+		<-release
+	}
 	f.mu.Lock()
 	defer f.mu.Unlock()
 	out := stringset.New()
@@ -400,6 +418,21 @@ func trace(c *eng.Ctx, t int, rng *rand.Rand, n int) {
 			<-done
 			// one more direct refresh makes the post-state certain even if Monitor was stopped mid-way
 			p.ring.Refresh()
+		} else if rng.Intn(3) == 0 {
+			// a slow health check: while Refresh is inside the filter, every read still answers for the PREVIOUS
+			// membership and health (the ring installs members, hash and healthy set together, after the check)
+			entered, release := p.filter.arm()
+			done := make(chan struct{})
+			go func() { p.ring.Refresh(); close(done) }()
+			select {
+			case <-entered:
+				w.reads(p, rng)
+				w.sweep(p)
+				w.c.Inc("mid_refresh_sweeps", 1)
+			case <-done:
+			}
+			close(release)
+			<-done
 		} else {
 			p.ring.Refresh()
 		}
